@@ -1,4 +1,5 @@
-import Sucds.Proofs.GenAll
+import Sucds.Proofs.GenIterators
+import Sucds.Proofs.GenCompactVector
 /-! # C17 over the iterators *generated from the Rust sources* — partial (3 of 9 containers' iterators)
 
 `Props/C17.lean` states C17 about the hand-written iterator models. Here the clauses that concern
